@@ -13,7 +13,7 @@ MANIFEST = {
              "universes=, attributes=), edge(attributes=), Universe(vertices=), UniverseLaws(edge_whitelist=), "
              "load_adj_dict, load_adj_matrix) over a symbolic graph state: (i) the object handed out is not the "
              "internal container (nor a cache entry); (ii) after a symbolic mutation of the exchanged container "
-             "(append / clear / reverse / pop / item assignment / nested assignment) every accessor answers as before "
+             "(append / extend / remove / clear / reverse / sort / pop / item assignment / nested assignment) every accessor answers as before "
              "and the built object is unchanged.",
     "note": "Bounds: 3 vertices, 2 two-ended links, 1 universe, one mutation per exchanged container. Mutation of the "
             "ELEMENTS (vertices are shared by design) is outside. Trusted: pysym (validated per path on CPython), z3.",
@@ -27,7 +27,7 @@ ASSUMPTIONS = ["one mutation per handed-out container", "pool bound as stated"]
 EXPLANATION = "aliasing + behavioural snapshot checks for every accessor and constructor over a symbolic state"
 
 ACCESSORS = ["links", "vertices", "members", "universes", "neighbors", "neighbors_hit", "find_links", "bft", "dft_recursive", "dft_iterative"]
-MUTATIONS = ["append", "clear", "reverse", "pop", "setitem", "add"]
+MUTATIONS = ["append", "clear", "reverse", "pop", "setitem", "add", "remove", "sort", "extend"]
 INPUTS = ["vertex_links", "vertex_universes", "vertex_attributes", "edge_attributes", "universe_vertices",
           "adj_dict", "adj_matrix"]          # UniverseLaws(edge_whitelist=) has its own configuration
 
@@ -101,9 +101,15 @@ try:
         r.pop()
     elif mutation == "setitem":
         r[0] = obj
+    elif mutation == "remove":
+        r.remove(obj)
+    elif mutation == "sort":
+        r.sort(key=id, reverse=True)
+    elif mutation == "extend":
+        r.extend([obj, obj])
     else:
         r.add(obj)
-except (AttributeError, TypeError, IndexError, KeyError):
+except (AttributeError, TypeError, IndexError, KeyError, ValueError):
     mutated = False
 again = access()
 if isinstance(again, set):
@@ -202,6 +208,13 @@ def mutate(c):
     elif mutation == "pop":
         if len(c) > 0:
             c.pop()
+    elif mutation == "remove":
+        if obj in c:
+            c.remove(obj)
+    elif mutation == "sort":
+        c.sort(key=id, reverse=True)
+    elif mutation == "extend":
+        c.extend([obj, obj])
     elif len(c) > 0:
         c[0] = obj
 
@@ -291,8 +304,8 @@ def scenario(B, p):
         B.prove(f"{p['accessor']}: every other accessor unaffected", out["others"])
         return
     env["inp"] = p["input"]
-    env["some_links"] = B.reflist("some_links", links, 2, 3)
-    env["some_verts"] = B.reflist("some_verts", verts, 2, 3)
+    env["some_links"] = B.reflist("some_links", links, 2, 5)
+    env["some_verts"] = B.reflist("some_verts", verts, 2, 5)
     env["cell"] = B.int("cell", 0, 1)
     env["inner_ok"] = True
     out = B.run(PROG_IN, env)
